@@ -1704,6 +1704,10 @@ Qed.
    the array dimensions (Q_max of the co-processed queries, n_cache): used by C13 *)
 Definition nostrand (r : rrow) : (Z * Z) * Z * Z * Z := (r_p r, r_score r, r_off r, r_ovl r).
 
+Lemma nostrand_inv a b : nostrand a = nostrand b ->
+  r_p a = r_p b /\ r_score a = r_score b /\ r_off a = r_off b /\ r_ovl a = r_ovl b.
+Proof. unfold nostrand. intros H. injection H as -> -> -> ->. auto. Qed.
+
 Lemma scan_fold_rel (B B' : arr) nq nt nlen nlen' (l : list (nat * Z)) : forall st st',
   nostrand st = nostrand st' ->
   (forall ks, In ks l -> p_lookup fixed B nt nlen (snd ks) = p_lookup fixed B' nt nlen' (snd ks)) ->
@@ -1770,28 +1774,29 @@ Proof.
           = snd (run_query_ver fixed (c_t c') (c_d c') (c_q c') s')).
   rewrite (rows_unfold c s), (rows_unfold c' s'). cbn [c c' c_t c_q c_d].
   fold nq nb off F tmax.
-  apply map_ext_in. intros j Hj. apply in_seq in Hj.
-  assert (Hrows : forall i, (i < length (t_lens t))%nat ->
-            nostrand (p_values fixed (stage_gamma fixed q (sGam s))
-                        (snd (backgrounds fixed F nq nb off (nlen_of t d) tmax (sAcs s) (sB s)))
-                        (t_rrinv t) nq off (nlen_of t d) (t_lens t) 0 0 (sRes s) i)
-            = nostrand (p_values fixed (stage_gamma fixed q (sGam s'))
-                        (snd (backgrounds fixed F nq nb off (nlen_of t d') tmax (sAcs s') (sB s')))
-                        (t_rrinv t) nq off (nlen_of t d') (t_lens t) 0 0 (sRes s') i)).
-  { intros i Hi.
+  set (R := p_values fixed (stage_gamma fixed q (sGam s))
+              (snd (backgrounds fixed F nq nb off (nlen_of t d) tmax (sAcs s) (sB s)))
+              (t_rrinv t) nq off (nlen_of t d) (t_lens t) 0 0 (sRes s)).
+  set (R' := p_values fixed (stage_gamma fixed q (sGam s'))
+              (snd (backgrounds fixed F nq nb off (nlen_of t d') tmax (sAcs s') (sB s')))
+              (t_rrinv t) nq off (nlen_of t d') (t_lens t) 0 0 (sRes s')).
+  assert (Hrows : forall i, (i < length (t_lens t))%nat -> nostrand (R i) = nostrand (R' i)).
+  { intros i Hi. unfold R, R'.
     pose proof (R1_nth c s i Hi) as E1. pose proof (R1_nth c' s' i Hi) as E2.
     cbn [c c' c_t c_q c_d] in E1, E2. fold nq nb off F tmax in E1, E2. rewrite E1, E2.
     apply target_row_indep. apply (nt_range c W i Hi). }
+  clearbody R R'.
+  apply map_ext_in. intros j Hj. apply in_seq in Hj.
   destruct (t_rc t) eqn:Hrc.
-  - unfold n_in in Hj. rewrite Hrc in Hj.
-    destruct (wf_rc c W Hrc) as [Hlen _]. cbn [c c_t] in Hlen.
+  - unfold n_in in Hj |- *. rewrite ?Hrc in Hj |- *.
+    Show. destruct (wf_rc c W Hrc) as [Hlen _]. cbn [c c_t] in Hlen.
     rewrite !merge_rc_nth by lia. cbn zeta.
-    pose proof (Hrows j ltac:(lia)) as Ha. pose proof (Hrows (j + n_in t)%nat ltac:(unfold n_in; rewrite Hrc; lia)) as Hb.
-    unfold nostrand in Ha, Hb. injection Ha as A1 A2 A3 A4. injection Hb as B1 B2 B3 B4.
+    destruct (nostrand_inv _ _ (Hrows j ltac:(lia))) as [A1 [A2 [A3 A4]]].
+    destruct (nostrand_inv _ _ (Hrows (j + length (t_lens t) / 2)%nat ltac:(lia))) as [B1 [B2 [B3 B4]]].
     rewrite A1, A2, A3, A4, B1, B2, B3, B4. reflexivity.
-  - unfold n_in in Hj. rewrite Hrc in Hj. unfold clear_strand.
+  - unfold n_in in Hj |- *. rewrite ?Hrc in Hj |- *. unfold clear_strand.
     replace (j <? length (t_lens t))%nat with true by lia.
-    pose proof (Hrows j ltac:(lia)) as Ha. unfold nostrand in Ha. injection Ha as A1 A2 A3 A4.
+    destruct (nostrand_inv _ _ (Hrows j ltac:(lia))) as [A1 [A2 [A3 A4]]].
     rewrite A1, A2, A3, A4. reflexivity.
 Qed.
 End Indep.
